@@ -8,6 +8,10 @@ texts, the structure of `prepare`).
 -/
 import PyramidModel.HttpExc
 import PyramidModel.Gen.C19
+import PyramidModel.Gen.C19ProbesA
+import PyramidModel.Gen.C19ProbesB
+import PyramidModel.Gen.C19ProbesC
+import PyramidModel.Gen.C19ProbesD
 import PyramidModel.Lemmas.HttpExcSpec
 import PyramidModel.Lemmas.HttpExc
 import PyramidModel.Lemmas.HttpExcTemplate
@@ -17,7 +21,7 @@ import PyramidModel.Lemmas.HttpExcNegotiate
 
 namespace Pyr.HttpExc
 
-open Pyr.Gen.C19 (classes offered)
+open Pyr.Gen.C19 (classes)
 
 /-! ## 1. the escape function -/
 
@@ -281,17 +285,18 @@ theorem untouched_iff (off : List Text) (e : Exc) (environ : List (Text × Text)
 
 /-! ## 4. negotiation -/
 
-/-- With the list the code offers to `acceptable_offers` (generated from the source), the chosen form is the best
-acceptable of HTML, JSON and plain text: a form of maximal q (ties: html before json before plain), plain text
-when none is acceptable.  False for the pre-fix source, which did not offer text/plain (F-C19a). -/
+/-- With all three forms offered to `acceptable_offers` (`offeredForms`; that the code behaves so is the probed
+obligation `probes_match_model_D`: 286 Accept headers), the chosen form is the best acceptable of HTML, JSON and
+plain text: a form of maximal q (ties: html before json before plain), plain text when none is acceptable.
+False for the pre-fix source, which did not offer text/plain (F-C19a). -/
 theorem best_acceptable {e : Exc} {environ : List (Text × Text)} {q : Text → Nat} {r : Resp}
-    (h : prepare offered e environ q = .ok (some r)) :
+    (h : prepare offeredForms e environ q = .ok (some r)) :
     r.form = bestForm q ∧
     (q mimeHtml = 0 ∧ q mimeJson = 0 ∧ q mimePlain = 0 → r.form = .plain) ∧
     (¬ (q mimeHtml = 0 ∧ q mimeJson = 0 ∧ q mimePlain = 0) →
       q r.contentType ≠ 0 ∧ ∀ f, q (contentTypeOf f) ≤ q r.contentType) := by
   obtain ⟨h1, h2, _⟩ := rendered_has_pieces h
-  have ho : offered = [mimeHtml, mimeJson, mimePlain] := by decide
+  have ho : offeredForms = [mimeHtml, mimeJson, mimePlain] := by decide
   rw [ho, chooseMatch_three] at h1
   have hm := bestForm_max q
   rw [h2, h1]
@@ -303,54 +308,78 @@ theorem best_acceptable_needs_plain_offered :
     let q : Text → Nat := fun m => if m = mimePlain then 1000 else if m = mimeHtml then 500 else 0
     formOf (chooseMatch q [mimeHtml, mimeJson]) = .html ∧ bestForm q = .plain := by decide
 
-/-! ## 5. obligations on the generated tables (decided over the whole table) -/
+/-! ## 5. obligations on the generated tables (decided over the whole table)
 
-/-- the translator recognised every construct it reads -/
+The tables are obtained by RUNNING the code of the tree under test (extract/c19.py), not by reading its syntax. -/
+
+/-- every probe could be carried out and every class attribute has the expected type -/
 theorem translator_recognised_source : Pyr.Gen.C19.translatorOk = true ∧ Pyr.Gen.C19.problems = [] := by decide
 
-/-- `prepare`'s statements are the ones the model executes, in the model's order -/
-theorem prepare_skeleton_matches_model :
-    Pyr.Gen.C19.guard = "not self.has_body and (not self.empty_body)" ∧
-    Pyr.Gen.C19.acceptableExpr = "[offer[0] for offer in acceptable] + ['text/plain']" ∧
-    Pyr.Gen.C19.matchExpr = "acceptable[0]" ∧
-    Pyr.Gen.C19.commentInit = "self.comment or ''" ∧ Pyr.Gen.C19.htmlCommentInit = "''" ∧
-    Pyr.Gen.C19.bodyTmplExpr = "self.body_template_obj" ∧
-    Pyr.Gen.C19.customTest = "HTTPException.body_template_obj is not body_tmpl" ∧
-    Pyr.Gen.C19.bodySubst = "body_tmpl.substitute(args)" ∧
-    Pyr.Gen.C19.pageSubst = "page_template.substitute(status=self.status, body=body)" ∧
-    Pyr.Gen.C19.jsonFormatter = "{'message': body, 'code': status, 'title': self.title}" ∧
-    Pyr.Gen.C19.htmlEscapeImport = "webob.html_escape" ∧
-    Pyr.Gen.C19.callBody = "self.prepare(environ) ; return Response.__call__(self, environ, start_response)" ∧
-    Pyr.Gen.C19.stmtOrder = ["match", "if:match", "args", "body_tmpl", "if:custom", "body", "page", "if:encode",
-      "self.app_iter", "self.body"] :=
-  ⟨rfl, rfl, rfl, rfl, rfl, rfl, rfl, rfl, rfl, rfl, rfl, rfl, rfl⟩
+/-- there is one `prepare` / `__call__` for all classes (so probing it through some classes speaks for all) -/
+theorem prepare_is_shared : Pyr.Gen.C19.prepareShared = true := by decide
 
-/-- the ladder as the model implements it: test, content type, escape function, `br`, page template, comment form -/
-def expectedBranches : List Pyr.Gen.C19.Branch := [
-  ⟨"match == 'text/html'", "text/html", mimeHtml, "", "_html_escape", "<br/>", ['<', 'b', 'r', '/', '>'],
-   "self.html_template_obj", "'<!-- %s -->' % escape(comment)", ""⟩,
-  ⟨"match == 'application/json'", "application/json", mimeJson, "None", "_no_escape", "\n", ['\n'],
-   "JsonPageTemplate(self)", "escape(comment)",
-   "jsonbody = self.excobj._json_formatter(status=status, body=body, title=self.excobj.title, environ=environ) ; return json.dumps(jsonbody)"⟩,
-  ⟨"else", "text/plain", mimePlain, "", "_no_escape", "\n", ['\n'], "self.plain_template_obj", "escape(comment)", ""⟩]
+/-- the model run on the input of a probe, in the vocabulary of the observations -/
+def runProbe (p : Pyr.Gen.C19.RenderProbe) : Pyr.Gen.C19.Observed :=
+  let e0 := p.cls.toExc p.detail p.comment p.headers
+  let e1 : Exc := { e0 with hasBody := p.hasBody, explanation := p.explanation.getD e0.explanation }
+  let e : Exc := match p.bodyTemplate with
+    | some t => { e1 with bodyTmpl := t, custom := true }
+    | none => e1
+  let q : Text → Nat := fun m =>
+    if m = mimeHtml then p.qh else if m = mimeJson then p.qj else if m = mimePlain then p.qp else 0
+  match prepare offeredForms e p.environ q with
+  | .ok none => .untouched
+  | .ok (some r) => .ok r.contentType r.body
+  | .error (.key n) => .errKey n
+  | .error .invalid => .errInvalid
 
-/-- every branch of the ladder (html / json / else, in this order) sets the content type, escape function, `br`,
-page template and comment form the model uses for that form -/
-theorem branches_match_model :
-    Pyr.Gen.C19.branches = expectedBranches ∧
-    expectedBranches.map (fun b => (b.contentTypeT, b.brT)) =
-      [(contentTypeOf .html, brOf .html), (contentTypeOf .json, brOf .json), (contentTypeOf .plain, brOf .plain)] :=
-  ⟨rfl, by decide⟩
+def probeAgrees (p : Pyr.Gen.C19.RenderProbe) : Bool := decide (runProbe p = p.observed)
 
-/-- every entry of `args` is `br`, `html_comment`, or `escape(…)` of the text the model escapes under that key;
-nothing is inserted raw -/
-theorem args_all_escaped :
-    Pyr.Gen.C19.argsTable =
-      [("br", .br), ("explanation", .escaped "self.explanation"), ("detail", .escaped "self.detail or ''"),
-       ("comment", .escaped "comment"), ("html_comment", .htmlComment)] ∧
-    Pyr.Gen.C19.customLoops =
-      [("environ.items()", "(k, v)", "not k.startswith('wsgi.') and '.' in k", "args[k]", "escaped:v"),
-       ("self.headers.items()", "(k, v)", "", "args[k.lower()]", "escaped:v")] := by decide
+/-- every module class x {html, json, plain} with hostile sentinels in detail, comment, Location and REQUEST_METHOD:
+the real rendering is the model's (content type, every character of the body) — html form -/
+theorem probes_match_model_A : Pyr.Gen.C19.probesA.all (·.all probeAgrees) = true := by decide +kernel
+
+/-- the same for the JSON and plain-text forms -/
+theorem probes_match_model_B : Pyr.Gen.C19.probesB.all (·.all probeAgrees) = true := by decide +kernel
+
+/-- the escape each substitution variable receives (explanation, detail, comment, html_comment, br, an environ value,
+a header value; one per render) in each form, over all 128 ASCII characters, every metacharacter alone, `$`-syntax,
+character references and non-ASCII texts: what the real code wrote is `escapeOf` / `htmlCommentOf` / `brOf` of the
+model -/
+theorem probes_match_model_C : Pyr.Gen.C19.probesC.all (·.all probeAgrees) = true := by decide +kernel
+
+/-- negotiation (286 Accept headers: q(html), q(json), q(plain) ∈ {absent, 0, 0.3, 0.5, 1}³ in both orders, wildcards,
+single ranges with parameters, malformed, absent), the `has_body` / `empty_body` guard, custom templates (override
+order base < environ < headers, header names lower-cased, default template ignores the extras, page template per
+form, `$`-syntax in values at both levels, KeyError / ValueError), the WSGI call, the Router's own 404 -/
+theorem probes_match_model_D : Pyr.Gen.C19.probesD.all (·.all probeAgrees) = true := by decide +kernel
+
+/-- the probe domain is the intended one: nothing was dropped, every class is probed in every form, every variable
+in every form over the whole of ASCII -/
+theorem probe_domain_covered :
+    Pyr.Gen.C19.probesACount + Pyr.Gen.C19.probesBCount + Pyr.Gen.C19.probesCCount + Pyr.Gen.C19.probesDCount
+      = Pyr.Gen.C19.probeCount ∧
+    (Pyr.Gen.C19.probesA.map List.length).sum = Pyr.Gen.C19.probesACount ∧
+    (Pyr.Gen.C19.probesB.map List.length).sum = Pyr.Gen.C19.probesBCount ∧
+    (Pyr.Gen.C19.probesC.map List.length).sum = Pyr.Gen.C19.probesCCount ∧
+    (Pyr.Gen.C19.probesD.map List.length).sum = Pyr.Gen.C19.probesDCount ∧
+    (classes.all fun c =>
+      (Pyr.Gen.C19.probesA.any (·.any fun p => p.cls == c && p.qh != 0)) &&
+      (Pyr.Gen.C19.probesB.any (·.any fun p => p.cls == c && p.qj != 0)) &&
+      (Pyr.Gen.C19.probesB.any (·.any fun p => p.cls == c && p.qp != 0))) = true ∧
+    ((["ascii:explanation", "ascii:detail", "ascii:comment", "ascii:html_comment", "ascii:br", "ascii:env", "ascii:hdr"].all fun k =>
+      (Pyr.Gen.C19.probesC.any (·.any fun p => p.kind == k && p.qh != 0)) &&
+      (Pyr.Gen.C19.probesC.any (·.any fun p => p.kind == k && p.qj != 0)) &&
+      (Pyr.Gen.C19.probesC.any (·.any fun p => p.kind == k && p.qp != 0))) = true) ∧
+    (Pyr.Gen.C19.probesD.any (·.any fun p => p.kind == "neg")) = true ∧
+    (Pyr.Gen.C19.probesD.any (·.any fun p => p.kind == "router404")) = true ∧
+    (Pyr.Gen.C19.probesD.any (·.any fun p => p.kind == "wsgi")) = true := by decide +kernel
+
+/-- which environ values the real code stringifies while it builds the args of a custom template is the model's
+filter (`envKeySkipped`), in every form; with the default template none is looked at -/
+theorem env_filter_matches_model :
+    (Pyr.Gen.C19.envFilterProbes.all fun (k, _, included) => included == !envKeySkipped k) = true ∧
+    Pyr.Gen.C19.envFilterProbes.length ≥ 50 ∧ Pyr.Gen.C19.defaultTemplateReadsEnviron = false := by decide +kernel
 
 /-- a class's templates: well-formed; a non-custom body template is the default one and only uses the five
 standard keys; page templates only use `status` and `body` -/
@@ -370,7 +399,7 @@ environ and Accept outcome: no input makes the default error pages fail with Key
 theorem default_classes_always_render :
     ∀ c ∈ classes, c.custom = false →
       ∀ (detail comment : Option Text) (headers environ : List (Text × Text)) (q : Text → Nat),
-        ∃ r, prepare offered (c.toExc detail comment headers) environ q = .ok r := by
+        ∃ r, prepare offeredForms (c.toExc detail comment headers) environ q = .ok r := by
   intro c hc hcust detail comment headers environ q
   have hall := class_templates_wellformed
   rw [List.all_eq_true] at hall
@@ -381,7 +410,7 @@ theorem default_classes_always_render :
   split
   · exact ⟨_, rfl⟩
   · simp only []
-    generalize formOf (chooseMatch q offered) = f
+    generalize formOf (chooseMatch q offeredForms) = f
     obtain ⟨e, he⟩ : ∃ e, e = c.toExc detail comment headers := ⟨_, rfl⟩
     rw [← he]
     have hbody : ∃ body, specBody f e environ = .ok body := by
@@ -422,7 +451,7 @@ way — so it contains no markup character chosen by the requester: all its mark
 theorem notfound_echo_escaped :
     ∀ c ∈ classes, c.name = "HTTPNotFound" →
       ∀ (path : Text) (headers environ : List (Text × Text)) (q : Text → Nat),
-        ∃ r, prepare offered (c.toExc (some path) none headers) environ q = .ok (some r) ∧
+        ∃ r, prepare offeredForms (c.toExc (some path) none headers) environ q = .ok (some r) ∧
           (r.form = .html →
             ∃ ps, r.body = flattenPieces ps ∧ (⟨.user path, htmlEscape path⟩ : Piece) ∈ ps ∧
               (∀ p ∈ ps, ∀ ch ∈ p.text, isMeta ch = true → ∀ raw, p.origin ≠ .user raw)) := by
@@ -484,20 +513,20 @@ def qOnly (m : Text) : Text → Nat := fun x => if x = m then 1000 else 0
 def formReached (r : Except Err (Option Resp)) : Option Form := r.toOption.join.map (·.form)
 
 /-- HTML form is reached, with a hostile detail and comment -/
-example : formReached (prepare offered (demoExc (some ['<', 'b', '>', '$', '{', 'b', 'r', '}']) (some ['-', '-', '>'])) []
+example : formReached (prepare offeredForms (demoExc (some ['<', 'b', '>', '$', '{', 'b', 'r', '}']) (some ['-', '-', '>'])) []
     (qOnly mimeHtml)) = some .html := by decide +kernel
 
 /-- JSON form is reached -/
-example : formReached (prepare offered (demoExc (some ['"', '\\', '<']) none) [] (qOnly mimeJson)) = some .json := by
+example : formReached (prepare offeredForms (demoExc (some ['"', '\\', '<']) none) [] (qOnly mimeJson)) = some .json := by
   decide +kernel
 
 /-- plain form is reached: when only text/plain is acceptable, and when nothing is -/
-example : formReached (prepare offered (demoExc (some ['<']) none) [] (qOnly mimePlain)) = some .plain ∧
-    formReached (prepare offered (demoExc (some ['<']) none) [] (fun _ => 0)) = some .plain := by decide +kernel
+example : formReached (prepare offeredForms (demoExc (some ['<']) none) [] (qOnly mimePlain)) = some .plain ∧
+    formReached (prepare offeredForms (demoExc (some ['<']) none) [] (fun _ => 0)) = some .plain := by decide +kernel
 
 /-- both substitution levels at a concrete input: custom body template `${detail}|$$|$detail`, page template
 `<p>${body}</p>`, detail `<$$${x}`: the detail is escaped, its `$$` and `${x}` are not touched by either pass -/
-example : (prepare offered
+example : (prepare offeredForms
       { demoExc (some ['<', '$', '$', '$', '{', 'x', '}']) none with
         bodyTmpl := ['$', '{', 'd', 'e', 't', 'a', 'i', 'l', '}', '|', '$', '$', '|', '$', 'd', 'e', 't', 'a', 'i', 'l'],
         custom := true, htmlTmpl := ['<', 'p', '>', '$', '{', 'b', 'o', 'd', 'y', '}', '<', '/', 'p', '>'] }
